@@ -299,16 +299,24 @@ impl SchemaCatalog {
     pub fn save(&self, path: &Path) -> Result<(), SchemaError> {
         // Ensure parent directory exists
         if let Some(parent) = path.parent() {
+            #[cfg(inputlayer_verif)]
+            crate::verif_hooks::fs_point("schemacat.save.mkdir:pre");
             fs::create_dir_all(parent).map_err(|e| {
                 SchemaError::IoError(format!("Failed to create schema directory: {e}"))
             })?;
+            #[cfg(inputlayer_verif)]
+            crate::verif_hooks::fs_point("schemacat.save.mkdir:post");
         }
 
         let content = serde_json::to_string_pretty(self)
             .map_err(|e| SchemaError::IoError(format!("Failed to serialize schemas: {e}")))?;
 
+        #[cfg(inputlayer_verif)]
+        crate::verif_hooks::fs_point("schemacat.save.write:pre");
         fs::write(path, content)
             .map_err(|e| SchemaError::IoError(format!("Failed to write schema catalog: {e}")))?;
+        #[cfg(inputlayer_verif)]
+        crate::verif_hooks::fs_point("schemacat.save.write:post");
 
         Ok(())
     }
